@@ -1012,13 +1012,12 @@ func lemmaCreateThenMapQueue(data []byte, cap uint32) {
 
 // Discard: drops exactly size bytes (after the refill), slice by slice
 //@ func (*linkedBuffer).Discard
-//@   requires bufOK(l) && l.len >= size && size >= 0
-//@   assume   size > 0 ==> frontOK(l)
-//@   assume   l.pinnedList.backSlice != l.sliceList.frontSlice
+//@   requires bufOK(l) && l.len >= size
 //@   unreachable-returns 1   // the readMore error exit
-//@   ensures  err == nil && n == size && l.len == old(l.len) - size
+//@   ensures  size <= 0 ==> n == 0 && err == nil && l.len == old(l.len)
+//@   ensures  size > 0 ==> err == nil && n == size && l.len == old(l.len) - size
 //@   loop 0 assume size > 0 ==> frontOK(l) && l.pinnedList.backSlice != l.sliceList.frontSlice
-//@   loop 0 invariant bufOK(l) && size >= 0 && n + size == size0 && l.len == old(l.len) && err == nil
+//@   loop 0 invariant bufOK(l) && size > 0 && n + size == size0 && l.len == old(l.len) && err == nil
 
 // cleanPinnedList / ReleasePreviousRead: every parked slice is released (recycled or returned to the pool)
 //@ func (*linkedBuffer).cleanPinnedList
@@ -1030,4 +1029,27 @@ func lemmaCreateThenMapQueue(data []byte, cap uint32) {
 //@   exit[C08] released == old(l.pinnedList.len)
 //@   ensures  old(l.pinnedList.len) > 0 ==> !l.currentPinned
 //@   loop 0 assume l.pinnedList.len > 0 ==> l.pinnedList.frontSlice != nil && (l.pinnedList.len > 1 ==> l.pinnedList.frontSlice.nextSlice != nil)
-//@   loop 0 invariant listOK(l.pinnedList) && released + l.pinnedList.len == old(l.pinnedList.len) && !l.currentPinned && l.pinnedList == old(l.pinnedList)
+//@   loop 0 invariant listOK(l.pinnedList) && released + l.pinnedList.len == old(l.pinnedList.len) && !l.currentPinned && l.pinnedList == old(l.pinnedList) && l.sliceList.len == old(l.sliceList.len) && l.sliceList.frontSlice == old(l.sliceList.frontSlice) && l.sliceList.backSlice == old(l.sliceList.backSlice)
+//@   ensures  l.sliceList.len == old(l.sliceList.len) && l.sliceList.frontSlice == old(l.sliceList.frontSlice) && l.sliceList.backSlice == old(l.sliceList.backSlice) && l.len == old(l.len)
+//@   modifies l.currentPinned, all(sliceList.len), all(sliceList.frontSlice), all(sliceList.backSlice), all(M)
+//@   modifies all(bufferSlice.isFromShm), all(bufferSlice.offsetInShm), all(bufferSlice.data), all(bufferSlice.bufferHeader), all(bufferSlice.cap), all(bufferSlice.writeIndex), all(bufferSlice.readIndex), all(bufferSlice.start), all(bufferSlice.nextSlice)
+
+// lemmaUpdateThenNew: the header round trip that carries a slice across processes. After the writer
+// stamps its window with update(), a reader that builds a slice from the same header and payload
+// (readBufferSlice -> newBufferSlice) sees exactly the same byte window.
+func lemmaUpdateThenNew(s *bufferSlice) {
+	s.update()
+	n := newBufferSlice(s.bufferHeader, s.data, s.offsetInShm, true)
+	_ = n
+}
+
+//@ lemma lemmaUpdateThenNew
+//@   requires s != nil && s.bufferHeader != nil && len(s.bufferHeader) >= 20 && wfHeader(s) && wfSlice(s) && s.readIndex == s.start && s.nextSlice == nil
+//@   requires s.writeIndex < 4294967296
+//@   exit     n.data == s.data && n.readIndex == s.readIndex && n.writeIndex == s.writeIndex && n.offsetInShm == s.offsetInShm
+
+// ReleasePreviousRead: releases everything parked; additionally an exhausted front slice that is also the write slice
+//@ func (*linkedBuffer).ReleasePreviousRead
+//@   requires bufOK(l)
+//@   ensures[C08] l.pinnedList.len == 0
+//@   at call (*sliceList).size#0 assume l.sliceList.len > 0 ==> l.sliceList.frontSlice != nil && (l.sliceList.len > 1 ==> l.sliceList.frontSlice.nextSlice != nil) && listOK(l.sliceList)
